@@ -680,10 +680,10 @@ func (x *Exec) binop(st *State, op token.Token, a, b *Val, operandT, resT types.
 		r = Mul(at, bt)
 	case token.QUO:
 		x.checkBounds(st, Neq(bt, IntLit(0)), "div-by-zero", pos)
-		r = GoDiv(at, bt)
+		r = GoDiv(x.signHint(st, at), x.signHint(st, bt))
 	case token.REM:
 		x.checkBounds(st, Neq(bt, IntLit(0)), "div-by-zero", pos)
-		r = GoRem(at, bt)
+		r = GoRem(x.signHint(st, at), x.signHint(st, bt))
 	case token.SHL:
 		r = x.shl(st, at, bt, bt0)
 	case token.SHR:
